@@ -342,6 +342,15 @@ func evalWith(c Case, via string) (problems []string, skipped string, cmds []str
 	return
 }
 
+func firstKey(m map[string]string) string {
+	for k := range m {
+		if len(m) == 1 {
+			return k
+		}
+	}
+	return ""
+}
+
 func cases(tier string) []Case {
 	var cs []Case
 	embed := func(s string) string { return "a" + s + "b" }
@@ -360,6 +369,10 @@ func cases(tier string) []Case {
 	// string defaults that begin like a hexadecimal literal (not embedded: the prefix matters).
 	for _, v := range []string{"0x; y", "0xAB", "0xg'h"} {
 		choices = append(choices, choice{map[string]string{"default": v}}, choice{map[string]string{"default_raw": v}})
+	}
+	// literals that end in a backslash (not embedded: the backslash stands right before the closing quote).
+	for _, slot := range []string{"default", "check_literal", "table_comment", "column_comment", "index_comment", "enum_value"} {
+		choices = append(choices, choice{map[string]string{slot: "C:\\dir\\"}})
 	}
 	if tier == "thorough" {
 		for i, s1 := range Slots {
@@ -380,6 +393,12 @@ func cases(tier string) []Case {
 				if (!d.comment && strings.HasSuffix(slot, "_comment")) || (!d.enum && slot == "enum_value") || (d.name != "sqlite" && slot == "default_dq") || (d.name == "postgres" && slot == "default_raw") {
 					skip = true
 				}
+			}
+			if v, ok := ch.vals[firstKey(ch.vals)]; ok && v == "C:\\dir\\" && d.name == "mysql" && !strings.HasSuffix(firstKey(ch.vals), "_comment") {
+				// MySQL reads a backslash inside a literal as an escape: a literal that ends in one is
+				// spelled with two, which is what the embedded values already cover. Comments are
+				// quoted by the planner itself and stay in.
+				skip = true
 			}
 			if skip {
 				continue
@@ -428,7 +447,7 @@ func ownQuote(c Case) bool {
 }
 
 func Run(r *report.Run) {
-	r.Rule = "plans of the real MySQL/PostgreSQL/SQLite planners over a two-table schema in which one slot (thorough: two slots) out of 11 (table/column/index/check/foreign-key name, table/column/index comment, string default, enum value, check string literal) holds each of 20 adversarial strings (quotes, semicolon, comment markers, backslash, newline, dollar tags, BEGIN/END, DELIMITER and atlas:delimiter lines) x change kind {create, drop, alter, alter back; for the enum value slot also: a value added right after / before the adversarial one} x 6 formatters (the atlas one also through Planner.WriteCheckpoint) x indent {none, two spaces} x plan delimiter (atlas format: default, \\nGO, //, \\n-- end; without indent and with one adversarial slot also: two backslashes, backslash G, //\"//); the file is read back with the matching reader and the dialect's scanner and must yield exactly Plan.Changes[].Cmd; every change comment carries a marker that must not reach a statement; import slice: the directory written by each third-party formatter is imported by the real `atlas migrate import` and the resulting atlas file, read with the dialect's scanner, must again yield exactly the planned statements; execution slice: for every dialect x format x change kind the formatted files are written into a local directory opened as the format's own directory type (over older, longer files of the same names) and the real Executor (empty history, statements recorded by the driver) must run exactly the planned statements; hand-written third-party files (3 statements x 4 terminator spellings incl. trailing blanks / tab / CR LF x 3 file endings incl. an unterminated last statement x 5 formats) must be read as exactly their 3 statements by the format's reader and by `migrate import`; non-trivial = case with >=1 adversarial slot; distinct = (dialect, slots, kind, format, indent, delimiter)"
+	r.Rule = "plans of the real MySQL/PostgreSQL/SQLite planners over a two-table schema in which one slot (thorough: two slots; plus, not embedded, a literal ending in a backslash) out of 11 (table/column/index/check/foreign-key name, table/column/index comment, string default, enum value, check string literal) holds each of 20 adversarial strings (quotes, semicolon, comment markers, backslash, newline, dollar tags, BEGIN/END, DELIMITER and atlas:delimiter lines) x change kind {create, drop, alter, alter back; for the enum value slot also: a value added right after / before the adversarial one} x 6 formatters (the atlas one also through Planner.WriteCheckpoint) x indent {none, two spaces} x plan delimiter (atlas format: default, \\nGO, //, \\n-- end; without indent and with one adversarial slot also: two backslashes, backslash G, //\"//); the file is read back with the matching reader and the dialect's scanner and must yield exactly Plan.Changes[].Cmd; every change comment carries a marker that must not reach a statement; import slice: the directory written by each third-party formatter is imported by the real `atlas migrate import` and the resulting atlas file, read with the dialect's scanner, must again yield exactly the planned statements; execution slice: for every dialect x format x change kind the formatted files are written into a local directory opened as the format's own directory type (over older, longer files of the same names) and the real Executor (empty history, statements recorded by the driver) must run exactly the planned statements; hand-written third-party files (3 statements x 4 terminator spellings incl. trailing blanks / tab / CR LF x 3 file endings incl. an unterminated last statement x 5 formats) must be read as exactly their 3 statements by the format's reader and by `migrate import`; non-trivial = case with >=1 adversarial slot; distinct = (dialect, slots, kind, format, indent, delimiter)"
 	r.Assumptions = []string{
 		"statement text is compared after trimming one trailing ';'",
 		"the import slice uses create plans with at most one adversarial slot (quick: 4 slots; thorough: all)",
